@@ -760,12 +760,12 @@ func Check(c *core.Ctx) (map[string]any, []string, error) {
 	// quick: every history of length <= 2 over the small operand sets, a few random longer ones;
 	// thorough: length <= 2 over the wide operand sets, length <= 3 over the small ones (slices)
 	// or the wide ones (maps, structs), and random histories of length 6
-	runs := []runT{{"cases", 1, false, 0}, {"slice", 2, false, 0}, {"map", 2, false, 0}, {"mapint", 2, false, 0}, {"struct", 2, false, 0},
+	runs := []runT{{"cases", 1, false, 0}, {"slice", 2, false, 0}, {"array", 2, false, 0}, {"map", 2, false, 0}, {"mapint", 2, false, 0}, {"struct", 2, false, 0},
 		{"slice", 5, false, 6}, {"map", 5, false, 4}}
 	depth := 2
 	if c.Thorough() {
 		depth = 3
-		runs = []runT{{"cases", 1, true, 0}, {"slice", 2, true, 0}, {"slice", 3, false, 0}, {"map", 3, true, 0}, {"mapint", 3, true, 0}, {"struct", 3, true, 0},
+		runs = []runT{{"cases", 1, true, 0}, {"slice", 2, true, 0}, {"slice", 3, false, 0}, {"array", 3, true, 0}, {"map", 3, true, 0}, {"mapint", 3, true, 0}, {"struct", 3, true, 0},
 			{"slice", 6, true, 12}, {"map", 6, true, 12}, {"struct", 6, true, 12}}
 	}
 	byMode := M{}
